@@ -5,6 +5,8 @@ import FordModel.Mask
 import FordModel.Attribs
 import FordModel.TypeHead
 import FordModel.Entity
+import FordModel.FuncHead
+import FordModel.SrcFiles
 namespace Ford
 open Proto Parse
 
@@ -179,6 +181,53 @@ def dispatchC01 : List Str → Option (List Str)
                 | .declared v => ["d".toList, v.name, v.spec]
                 | .implicit nm => ["i".toList, nm, []])
           ++ r.2.flatMap (fun v => [v.name, v.spec]))
+      | _ => some ["bad-args".toList]
+    else if cmd == "c01.funcre".toList then
+      match args with
+      | [s] =>
+        if !TypeHead.modelled s then some ["unmodelled".toList]
+        else
+          match FuncHead.funcRe s with
+          | some g => some ["some".toList, C01D.optStr g.attributes, g.name, C01D.optStr g.arguments,
+                            C01D.optStr g.result, C01D.optStr g.bindC]
+          | none => some ["none".toList]
+      | _ => some ["bad-args".toList]
+    else if cmd == "c01.funcstmt".toList then
+      -- `c01.funcstmt <typed> <statement> e1 .. em` : is the text in front of FUNCTION a type specification,
+      -- the (masked) statement, the entities the declarations of the function name
+      match args with
+      | typed :: s :: ents =>
+        if !TypeHead.modelled s then some ["unmodelled".toList]
+        else
+          match FuncHead.funcRe s with
+          | none => some ["none".toList]
+          | some g =>
+            let r := FuncHead.funcCleanup (C01D.b typed) g ents
+            let bind : List Str := match g.bindC with
+              | none => ["-".toList]
+              | some t => match FuncHead.bindText t with
+                | some x => ['+' :: x]
+                | none => ["!".toList]
+            some (["some".toList, g.name] ++ bind ++ [showNat r.1.length]
+              ++ r.1.flatMap (fun a => match a with
+                    | .declared v => ["d".toList, v.name, v.spec]
+                    | .implicit nm => ["i".toList, nm, []])
+              ++ (match r.2.1 with
+                    | .prefixTyped nm => ["p".toList, nm, []]
+                    | .declared v => ["d".toList, v.name, v.spec]
+                    | .implicit nm => ["i".toList, nm, []])
+              ++ r.2.2.flatMap (fun v => [v.name, v.spec]))
+      | _ => some ["bad-args".toList]
+    else if cmd == "c01.files".toList then
+      -- `c01.files <cwd> <dirs> <exts> <exclude_dir> <exclude> entry ..` : lists separated by `|`, an entry is
+      -- `F<path>` or `D<path>`
+      match args with
+      | cwd :: dirs :: exts :: exdirs :: excl :: entries =>
+        let c : SrcFiles.Cfg :=
+          ⟨C01D.listOf '|' dirs, C01D.listOf '|' exts, C01D.listOf '|' exdirs, C01D.listOf '|' excl, cwd,
+           entries.map fun e => ⟨e.drop 1, e.head? == some 'F'⟩⟩
+        if !SrcFiles.modelled c then some ["unmodelled".toList]
+        else some (["ok".toList, joinSep '|' (SrcFiles.excludeAfter c)] ++ SrcFiles.findAllFiles c)
       | _ => some ["bad-args".toList]
     else none
   | [] => none
